@@ -468,21 +468,33 @@ Theorem ray_repaired :
   = Ok ([VRay (mkV3 0 0 0) (mkV3 f32_4 f32_5 f32_6)], []).
 Proof. vm_compute. reflexivity. Qed.
 
-(* a Color3uint8 value of a property the database does not know is written with wire type Color3uint8,
-   and the reader rejects that column (its arm accepts only properties declared Color3): the file
-   written for such a DOM cannot be read back *)
+(* a Color3uint8 value of a property the database does not know is written with wire type Color3uint8; before
+   repair 459caf55 the reader's arm rejected that column (it accepted only properties declared Color3), so the
+   file written for such a DOM could not be read back *)
 Theorem color3uint8_unknown_property_refuted :
-  enc_then_dec WColor3uint8 (to_default_rbx_type WColor3uint8) ectx0 ctx0 [VColor3uint8 1 2 3] = Err E_TYPE_MISMATCH.
+  match enc_col WColor3uint8 ectx0 [VColor3uint8 1 2 3] with
+  | Ok b => dec_color3uint8_pinned (to_default_rbx_type WColor3uint8) 1 b
+  | _ => Ok ([], [])
+  end = Err E_TYPE_MISMATCH.
+Proof. vm_compute. reflexivity. Qed.
+
+Theorem color3uint8_unknown_property_repaired :
+  enc_then_dec WColor3uint8 (to_default_rbx_type WColor3uint8) ectx0 ctx0 [VColor3uint8 1 2 3]
+  = Ok ([VColor3uint8 1 2 3], []).
 Proof. vm_compute. reflexivity. Qed.
 
 Definition ectx_id : enc_ctx := mkEC (fun r => Some (Z.of_N r)) (fun _ => None) (fun _ => 0).
 Definition dctx_id : dec_ctx := mkDC (fun z => Z.to_N z) [] None.
 
-(* two Content::Object values in one column come back in the opposite order (the reader pops its
-   deque of object referents from the back) *)
+(* before repair 55a7c594 two Content::Object values in one column came back in the opposite order (the reader
+   popped its deque of object referents from the back) *)
 Theorem content_object_order_refuted :
-  enc_then_dec WContent VT_Content ectx_id dctx_id [VContent (CObject 7); VContent (CObject 9)]
-  = Ok ([VContent (CObject 9); VContent (CObject 7)], []).
+  content_values_pinned dctx_id [2%Z; 2%Z] [] [7%Z; 9%Z] = Ok [VContent (CObject 9); VContent (CObject 7)].
+Proof. vm_compute. reflexivity. Qed.
+
+Theorem content_object_order_repaired :
+  enc_then_dec WContent VT_Content ectx_id dctx_id [VContent (CObject 7); VContent (CUri [97]); VContent (CObject 9); VContent CNone]
+  = Ok ([VContent (CObject 7); VContent (CUri [97]); VContent (CObject 9); VContent CNone], []).
 Proof. vm_compute. reflexivity. Qed.
 
 (* Font: cached_face_id = Some "" is written as the empty string and read back as None *)
